@@ -5,7 +5,7 @@
 (*            a base order chosen by the seed (the other 16 columns ride along)                       *)
 (*   cases  - the 20 real fields; (column order, N, holes) drawn by the driver's seeded generator      *)
 (*            and handed over in a JSON file; TLC computes the file and the loaded table for each      *)
-(*   sim    - the 20 real fields, random walks of swap / write / load / adopt                           *)
+(*   sim    - the 20 real fields, random walks of swap / write / load / adopt from seeded small tables         *)
 EXTENDS EmMotlIO, IOUtils
 
 Canon4 == <<"a", "b", "c", "d">>
@@ -25,7 +25,8 @@ Bij(n) == {p \in [1..n -> 1..n] : \A i, j \in 1..n : i # j => p[i] # p[j]}
 UpTo2(S) == {H \in SUBSET S : Cardinality(H) <= 2}
 
 \* ---- small
-AllOrders == {[i \in 1..W |-> Canon[p[i]]] : p \in Bij(W)}
+\* (TLC evaluates constant definitions eagerly: the guard keeps W! orders from being enumerated for the 20 fields)
+AllOrders == IF W > 5 THEN {} ELSE {[i \in 1..W |-> Canon[p[i]]] : p \in Bij(W)}
 SmallInit == UNION {{MkTable(o, n, H) : H \in UpTo2((1..n) \X (1..W))} : o \in AllOrders, n \in 1..2}
 TinyInit == {MkTable(<<"d", "c", "b", "a">>, 1, {})}
 AllPos == 1..W
@@ -41,22 +42,17 @@ LiftOrders == {[i \in 1..W |-> IF \E a \in 1..4 : LPos[a] = i
                                THEN Base[LPos[p[CHOOSE a \in 1..4 : LPos[a] = i]]] ELSE Base[i]] : p \in Bij(4)}
 LiftCells(n) == {<<r, CanonIdx(Base[LPos[a]])>> : r \in 1..n, a \in 1..4}
 LiftExtra(n) == {<<h[1], h[2]>> : h \in {x \in ToSet(Params.extra_holes) : x[1] <= n}}
-LiftInit == UNION {{MkTable(o, n, H \cup LiftExtra(n)) : H \in UpTo2(LiftCells(n))} : o \in LiftOrders, n \in 1..2}
+UpToK(S, K) == {H \in SUBSET S : Cardinality(H) <= K}
+LiftInit == UNION {{MkTable(o, n, H \cup LiftExtra(n)) : H \in UpToK(LiftCells(n), IF n = 1 THEN 2 ELSE Params.lift_k2)} :
+                       o \in LiftOrders, n \in 1..2}
 LiftPos == ToSet(LPos)
 
 \* ---- cases
 CaseTable(c) == MkTable(c.order, c.n, {<<h[1], h[2]>> : h \in ToSet(c.holes)})
 CaseInit == {CaseTable(Params.cases[i]) : i \in DOMAIN Params.cases}
 
-\* ---- emission restricted to what each step reads and writes
-NoRewrite == ~(IsWrite(op') /\ disk # NoFile)
-PreJ(o) == CASE IsWrite(o) -> [tbl |-> TJ(tbl)]
-             [] o.name = "load" -> [disk |-> DJ(disk)]
-             [] o.name = "swap" -> [tbl |-> TJ(tbl)]
-             [] OTHER -> [mem |-> TJ(mem)]
-PostJ(o) == CASE IsWrite(o) -> [disk |-> DJ(disk'), tbl_unchanged |-> (tbl' = tbl)]
-              [] o.name = "load" -> [mem |-> TJ(mem')]
-              [] OTHER -> [tbl |-> TJ(tbl')]
-EmitStep == /\ NoRewrite
-            /\ PrintT(ToJson([pre |-> PreJ(op'), op |-> op', post |-> PostJ(op')]))
+\* ---- sim
+SimInit == {CaseTable(Params.sim_cases[i]) : i \in DOMAIN Params.sim_cases}
+SimPos == ToSet(Params.sim_pos)
+
 =============================================================================
